@@ -330,6 +330,7 @@ impl<T: E> World<T> {
         alloc::Ev::Realloc(s, a, n) => format!("r{}:{}>{}", s, a, n),
         alloc::Ev::Dealloc(s, a) => format!("d{}:{}", s, a),
         alloc::Ev::Fail(s, a) => format!("f{}:{}", s, a),
+        alloc::Ev::FailRealloc(s, a, l, c, al) => format!("f{}:{}:h{}/{}/{}", s, a, l, c, al),
       })
       .collect();
     for (k, a, b) in alloc::take_violations() {
@@ -1134,6 +1135,14 @@ impl<T: E> World<T> {
           if x.partial_cmp(y) != xs.partial_cmp(ys) { bad.push("partial_cmp"); }
           if (*x == ys) != (xs == ys) || (xs == *y) != (xs == ys) { bad.push("eq_slice"); }
           if (*x < *y) != (xs < ys) || (*x >= *y) != (xs >= ys) { bad.push("lt_ge"); }
+          // the same storage on both sides (elements that are not equal to themselves must still differ)
+          if (*x == *x) != (xs == xs) || (*x != *x) != (xs != xs) { bad.push("eq_self"); }
+          if (*x == xs) != (xs == xs) || (xs == *x) != (xs == xs) { bad.push("eq_self_slice"); }
+          if x.partial_cmp(x) != xs.partial_cmp(xs) { bad.push("partial_cmp_self"); }
+          {
+            let xv: Vec<&T> = xs.iter().collect();
+            let _ = xv;
+          }
           let mut h1 = std::collections::hash_map::DefaultHasher::new();
           let mut h2 = std::collections::hash_map::DefaultHasher::new();
           x.hash(&mut h1);
